@@ -559,8 +559,16 @@ Fixpoint accept (durable : bool) (evs : list event) (a : acc) : bool :=
               let commit' := match hs with Some h => hs_commit h | None => a_commit a end in
               match snap with
               | Some (s, _) =>
+                  let old := a_commit a in
                   let a1 := acc_set_durable log' commit' s a in
-                  accept durable rest (gen_snapshot durable a1 s)
+                  if a_fresh a && (a_applying a <? old)
+                  then (* the entries committed before the boot were handed over by an earlier Ready that
+                          saved nothing (their task may still be in the pipeline), or never: the
+                          snapshot supersedes them *)
+                       let a0 := gen_range durable (acc_set_durable log' old (a_snap a) a) old in
+                       accept durable rest (gen_snapshot durable (acc_set_durable (a_log a0) commit' s a0) s)
+                       || accept durable rest (gen_snapshot durable a1 s)
+                  else accept durable rest (gen_snapshot durable a1 s)
               | None =>
                   let old := a_commit a in
                   let a1 := acc_set_durable log' commit' (a_snap a) a in
@@ -720,19 +728,29 @@ Fixpoint check_persist (d : dur) (evs : list event) : bool :=
 
 Definition dur0 : dur := mkDur [] (mkHS 0 0 0) 0.
 
-(* the structural signature of the known defect "a proposal forwarded by a node
-   that is no longer leader is bound to somebody else's entry": the proposing
-   node itself sent the command away in a MsgProp *)
-Definition forwarded_by (n : node_obs) (cmd : N) : bool :=
-  existsb (fun ev => match ev with
-                     | EvSend ms => existsb (fun m => (m_type m =? c12_MsgProp) && existsb (N.eqb cmd) (m_cmds m)) ms
-                     | _ => false
-                     end) (o_events n).
+(* the structural signature of the known defect C12-K1 "a proposal forwarded by a node that is no longer
+   leader stays in submittedProposals and shifts the binding of futures to entries": BEFORE the proposing
+   node persisted the entry whose (index, term) the future reports, that node had sent one of ITS OWN
+   proposals away in a MsgProp *)
+Definition sends_own_prop (own : list N) (ms : list msg) : bool :=
+  existsb (fun m => (m_type m =? c12_MsgProp) && existsb (fun c => existsb (N.eqb c) own) (m_cmds m)) ms.
+
+Fixpoint forwarded_before (own : list N) (i t : N) (seen : bool) (evs : list event) : bool :=
+  match evs with
+  | [] => false
+  | EvSend ms :: r => forwarded_before own i t (seen || sends_own_prop own ms) r
+  | EvSave _ ents _ :: r =>
+      if existsb (fun e => (e_idx e =? i) && (e_term e =? t)) ents then seen
+      else forwarded_before own i t seen r
+  | _ :: r => forwarded_before own i t seen r
+  end.
 
 Definition fut_forwarded (c : c12_case) (f : fut_obs) : bool :=
-  match nth_error (c_nodes c) (N.to_nat (f_node f) - 1) with
-  | Some n => forwarded_by n (f_cmd f)
-  | None => false
+  match f_res f, nth_error (c_nodes c) (N.to_nat (f_node f) - 1) with
+  | FutOk i t _, Some n =>
+      let own := map f_cmd (filter (fun g => f_node g =? f_node f) (c_futs c)) in
+      forwarded_before own i t false (o_events n)
+  | _, _ => false
   end.
 
 Definition check_C12_nodes (c : c12_case) : bool :=
